@@ -241,6 +241,9 @@ def replay_spellings(a):
         ("rule r {\n  AWS::S3::Bucket {\n    Properties.x == 1\n  }\n}\n", "rule r {\n  Resources.*[ Type == 'AWS::S3::Bucket' ] {\n    Properties.x == 1\n  }\n}\n"),
         ("rule r {\n  AWS::SNS::Topic {\n    Properties.x == 1\n  }\n}\n", "rule r {\n  Resources.*[ Type == 'AWS::SNS::Topic' ] {\n    Properties.x == 1\n  }\n}\n"),
         ("rule r {\n  a == 1\n  a >= 0\n}\n", "rule r {\n\n  a == 1   # first\n\n  # a comment line\n  a >= 0\n}\n"),
+        ("rule r {\n  a == 1\n}\n", "rule r {\n  a == 1\n}\n# the file ends with this comment, no newline after it"),
+        ("rule r {\n  a == 1\n}\n", "rule r {\n  a == 1\n}  # end"),
+        ("rule r {\n  a == 1\n}\n", "# head\nrule r {  # open\n  a == 1  # clause\n  # own line\n}\n#"),
         ("a == 1\n", "rule default {\n  a == 1\n}\n"),
         ("a == 2 or a == 1\n", "rule default {\n  a == 2 or a == 1\n}\n"),
         ("a == 1 or a == 2\na >= 1\n", "rule default {\n  a == 1 or a == 2\n  a >= 1\n}\n"),
@@ -483,6 +486,43 @@ def replay_function_arity(a):
         shutil.rmtree(d, ignore_errors=True)
 
 
+def comment_combinators(a):
+    """C14 (`comments ... do not change meaning`): comment2, the only comment recogniser, is delimited(char('#'), take_till(c == '\n'),
+    multispace0): nom's take_till stops at the first character satisfying the predicate OR at the end of the input and never fails, so a
+    comment that ends the file without a newline is still a comment (a `take_until("\n")`-style combinator fails there). Wiring facts read
+    off the MIR (which nom constructors are called with which constants) + the predicate closure executed symbolically."""
+    top = mirsmt.find_fn(a.mir, r"(?:(?:rules::)?parser::)?comment2")
+    facts = {
+        "opens with char('#')": bool(re.search(r"nom::character::complete::char::<[^\n]*>\(const '#'\)", top)),
+        "body is nom::bytes::complete::take_till": bool(re.search(r"= nom::bytes::complete::take_till::<", top)) and "take_until" not in top and "take_while1" not in top,
+        "closed by multispace0 through delimited": bool(re.search(r"= delimited::<[^\n]*multispace0", top)),
+    }
+    a.ob.check("parser/comment2/combinators", [], [], "false" if all(facts.values()) else "true",
+               "comment2 = delimited(char('#'), take_till(<predicate>), multispace0) - the body combinator is take_till, which also ends at the end of the input "
+               f"(facts read off the MIR: {facts}; degenerate solver part)")
+    item = a.ob.items[-1]
+    item["paths"], item["cut_by_unroll_bound"], item["unroll"] = 1, 0, 0
+    cands = [item] if item["status"] == "refuted" else []
+    # the predicate: the executor has no model of `char`; the closure is a single comparison, read off its MIR
+    try:
+        clo = mirsmt.find_fn(a.mir, r"(?:(?:rules::)?parser::)?comment2::\{closure#0\}")
+        stmts = [l.strip() for l in clo.splitlines() if l.strip().endswith(";") and not l.strip().startswith(("debug", "let", "scope"))]
+        pred_ok = stmts == ["_0 = Eq(copy _2, const '\\n');", "return;"]
+    except Untranslatable:
+        pred_ok = False
+    a.ob.check("parser/comment2/stops-at-newline-only", [], [], "false" if pred_ok else "true",
+               "the predicate handed to take_till is exactly `c == '\\n'` (the closure's MIR is that one comparison; degenerate solver part)")
+    item2 = a.ob.items[-1]
+    item2["paths"], item2["cut_by_unroll_bound"], item2["unroll"] = 1, 0, 0
+    if item2["status"] == "refuted":
+        cands.append(item2)
+    a.fns.append("rules::parser::comment2 (+ its predicate)")
+    for c in cands:
+        c["replay"] = replay_spellings(a)
+        c["reproduced"] = c["replay"].get("reproduced", False)
+        a.candidates.append(c)
+
+
 from mirblocks import type_block, guard_block
 
 
@@ -493,5 +533,5 @@ def this_and_index_forms(a):
     mirquery.q_dispatch(a)
 
 
-SITES = {"C14": [keyword_tables, type_block_desugar, parser_clause_wiring, quoting_wiring, type_block, guard_block, this_and_index_forms, index_spellings_agree, rules_file_sorting],
+SITES = {"C14": [keyword_tables, type_block_desugar, parser_clause_wiring, quoting_wiring, type_block, guard_block, this_and_index_forms, index_spellings_agree, rules_file_sorting, comment_combinators],
          "C18": [function_arity_gate], "C08": [function_arity_gate]}
